@@ -556,7 +556,7 @@ def _check_rect(case):
     return None
 
 
-_SHEETS = ['Sheet1', 'SHEET2', 'Data_1', 'a.b', 'My Sheet', 'x y z', "it's", 'Ünï', 'S1', 'R1C1x', 'été 2020']
+_SHEETS = ['Sheet1', 'SHEET2', 'Data_1', 'a.b', 'My Sheet', 'x y z', "it's", 'Ünï', 'S1', 'R1C1x', 'été 2020', 'Pad', 'Pad ', ' Pad']
 _BOOKS = [None, ('', '1'), ('', '12'), ('', 'book.xlsx'), ('dir', 'book.xlsx'), ('dir/', 'book.xlsx'), ('a b', 'My Book.xlsx'),
           ('data/2023', '2023 budget.xlsx'), ('data/2024', '2023 budget.xlsx'), ('', '1st.xlsx'), ('x', '7up')]
 
@@ -676,10 +676,10 @@ BOUNDED = [
           'whole-column and whole-row forms over boundary and random indices, $/case/R1C1-style spellings, read-back (slow resolver)',
           classify=_classify_boundary),
     Stage('B1:sheet-qualifiers', 'C04', _sheet_cases, _check_sheet,
-          '11 sheet names x 11 workbook qualifiers: quoting, case, doubled apostrophes give one id; the id reads back', parallel=False,
+          '14 sheet names (incl. leading and trailing blanks) x 11 workbook qualifiers: quoting, case, doubled apostrophes give one id; the id reads back', parallel=False,
           classify=_classify_boundary),
     Stage('B1:sheet-ids-distinct', 'C04', lambda tier, rng: [('all',)], _check_sheet_distinct,
-          'ids of the 121 (workbook, sheet) pairs are pairwise distinct', parallel=False),
+          'ids of the 154 (workbook, sheet) pairs are pairwise distinct', parallel=False),
     Stage('A:upper-axioms', 'C04', lambda tier, rng: [(lo, min(lo + 0x8000, 0x110000)) for lo in range(0, 0x110000, 0x8000)],
           lambda case: _check_upper_axioms(*case),
           'the engine\'s axioms about str.upper() on arbitrary text, checked on every code point (upper() is character-wise): '
